@@ -4,6 +4,7 @@
 package raft
 
 import (
+	"bytes"
 	"fmt"
 	"hash/fnv"
 	"sort"
@@ -562,6 +563,10 @@ func (r *simReplica) running() bool { return r.started && r.up && !r.removed }
 
 type simMsg struct {
 	m pb.Message
+	// raw is the message as the core handed it out (its Entries share memory with the
+	// core's in-memory log). The real transport serialises a queued message later, on
+	// another goroutine; until then what was handed out must not change.
+	raw pb.Message
 }
 
 type snapStatus struct {
@@ -908,6 +913,7 @@ func cloneMsg(m pb.Message) pb.Message {
 }
 
 func (s *sim) send(r *simReplica, m pb.Message) {
+	raw := m
 	m = cloneMsg(m)
 	s.onSend(r, m)
 	if s.blocked[[2]uint64{m.From, m.To}] {
@@ -917,7 +923,24 @@ func (s *sim) send(r *simReplica, m pb.Message) {
 		}
 		return
 	}
-	s.net = append(s.net, simMsg{m: m})
+	s.net = append(s.net, simMsg{m: m, raw: raw})
+}
+
+// checkNotMutated: C19/C02, entries handed out in a message still queued for sending
+// are the entries of the logical log at the time of the hand-out.
+func (s *sim) checkNotMutated(sm simMsg) {
+	if len(sm.raw.Entries) != len(sm.m.Entries) {
+		return
+	}
+	for i := range sm.m.Entries {
+		a, b := sm.raw.Entries[i], sm.m.Entries[i]
+		if a.Index != b.Index || a.Term != b.Term || a.Type != b.Type || a.Key != b.Key || a.ClientID != b.ClientID ||
+			a.SeriesID != b.SeriesID || !bytes.Equal(a.Cmd, b.Cmd) {
+			s.fail("sent-message-mutated", "%s %d->%d queued for sending: entry %d was %d/t%d key %d when handed out, is now %d/t%d key %d",
+				sm.m.Type, sm.m.From, sm.m.To, i, b.Index, b.Term, b.Key, a.Index, a.Term, a.Key)
+			return
+		}
+	}
 }
 
 // step runs one engine step for a replica (engine.processSteps for one node).
@@ -1090,6 +1113,7 @@ func (s *sim) deliver(k int, keep bool) {
 	}
 	k = k % len(s.net)
 	sm := s.net[k]
+	s.checkNotMutated(sm)
 	if !keep {
 		s.net = append(s.net[:k:k], s.net[k+1:]...)
 	}
@@ -1489,6 +1513,7 @@ func (s *sim) round(tick bool) {
 	msgs := s.net
 	s.net = nil
 	for _, sm := range msgs {
+		s.checkNotMutated(sm)
 		s.deliverMsg(sm.m)
 	}
 	sts := s.statusQ
